@@ -160,10 +160,12 @@ class Item:
     # -- logged edits -----------------------------------------------------------------
     def rewrite(self, rule, old, new, count=1, why=""):
         n = self.text.count(old)
-        if n != count:
+        if count is not None and n != count:
             raise ExtractionError(
                 "%s:%s rewrite %s: pattern %r occurs %d times, unit expects %d"
                 % (self.file, self.name, rule, old, n, count))
+        if n == 0:
+            return self
         self.text = self.text.replace(old, new)
         self.rewrites.append({"rule": rule, "old": old, "new": new, "count": count, "why": why})
         return self
@@ -312,7 +314,9 @@ class Item:
                         i = k
                         continue
                 if is_bool:
-                    new = "|%s| -> (r: bool) ensures r == (%s) { %s }" % (ps, body, body)
+                    # parameter types of a bool-valued closure can be left to rustc's inference
+                    ps_b = ", ".join(("%s: %s" % (p_, types[p_])) if p_ in types else p_ for p_ in params)
+                    new = "|%s| -> (r: bool) ensures r == (%s) { %s }" % (ps_b, body, body)
                 else:
                     new = ("|%s| -> (r: i64) requires i64::MIN <= (%s) <= i64::MAX, ensures r == (%s) { %s }"
                            % (ps, body, body, body))
